@@ -495,3 +495,18 @@ def C14(tier, seed):
             "an empty image of a huge configuration (Count-Min num_buckets x num_hashes, Bloom num_longs, CPC lg_k 26, frequent-items map sizes) "
             "legitimately implies a configuration-sized object in the other libraries too; these are listed as known findings, not silently allowed",
             "hangs are not detected other than by the driver's timeout (tool error)"], hits)
+
+
+# --------------------------------------------------------------------------- C01 (deterministic clauses)
+def C01(tier, seed):
+    multi("C01", tier, seed, ["hll", "hllu", "theta", "cpc", "cpcu"],
+          [("MC_Theta", "MC_Theta_p.cfg")],
+          ["DECIDED: in every state of every recorded history (streamed, merged, deserialized; HLL lg_k 4..12 all types/modes/estimators incl. "
+           "out-of-order composite; CPC lg_k 4..12 HIP and ICON (merged); theta lg_k 5..12 incl. sampling) lb3 <= lb2 <= lb1 <= estimate <= ub1 <= ub2 <= ub3 "
+           "(order-projected per event); a theta sketch at theta = 1.0 reports exactly the retained count; a sampling theta sketch whose updates were "
+           "all screened out is not empty and has a positive upper bound; Hll4/Hll6/Hll8 and to_sketch target types report bit-identical numbers",
+           "NOT DECIDED: absence of bias, spread consistent with the advertised RSE, and the 68/95/99.7% coverage rates are statements about a "
+           "probability distribution of floating-point outputs; a TLA+ specification has neither reals nor probability and no statistical engine is "
+           "added beside it. A swapped interpolation-table row or a few-percent bias that keeps the bounds nested is not detected by this check"],
+          "family recorders of HLL, HLL union, theta, CPC and CPC union with Check = {C01}: bounds and estimate observed after every update, union step, "
+          "to_sketch, round trip and compact")
